@@ -1,7 +1,9 @@
-(** C30 — what happens to a user-chosen resource name: the name-emission sites write it raw
-    after '/', in the resource dictionary ("\n/name value") and in the content stream
-    ("/name Do\n"); some entry points first pass it through page.rs validate_pdf_resource_name. *)
+(** C30 — what happens to a user-chosen resource name: the name-emission sites write it after '/'
+    through escape_pdf_name (#XX escaping, fix_name_escape), in the resource dictionary
+    ("\n/name value") and in the content stream ("/name Do\n"); some entry points first pass it
+    through page.rs validate_pdf_resource_name. *)
 From OxVerif Require Import Base.Util C09.Model.
+From OxVerif Require C21.Tok.
 
 (** page.rs validate_pdf_resource_name: non-empty, no NUL HT LF FF CR SP, no ( ) < > [ ] { } / %, no # *)
 Definition valid_char (c : N) : bool :=
@@ -12,17 +14,47 @@ Definition valid_char (c : N) : bool :=
 Definition valid_resource_name (n : bytes) : bool :=
   match n with [] => false | _ => forallb valid_char n end.
 
-(** parser/content.rs ContentTokenizer::read_name additionally stops at { and } *)
+(** parser/content.rs ContentTokenizer::read_name additionally stops at { and } (kept: which raw
+    names the writer before fix_name_escape could carry into a content stream) *)
 Definition content_regular_char (c : N) : bool := regular_char c && negb (c =? 123) && negb (c =? 125).
 Definition content_regular_name (n : bytes) : bool := forallb content_regular_char n.
 
 Inductive entry := EImage | EForm.    (* add_image+draw_image: no gate; add_form_xobject: gate *)
 
-(** outcome codes of the harness: 0 = reads back with this name, 1 = rejected by the API, 2 = broken *)
+(** A name [n] is the UTF-8 byte string of the Rust String the user passed.  After fix_name_escape
+    both emission sites write  '/' ++ esc_iso n  (text/encoding.rs escape_pdf_name, modelled in
+    C09.Model; C21.Model.esc_name is the same function, see Proofs.v).
+
+    Resource dictionary: the object lexer ([lex1], C09) reads the key back as one char per byte;
+    that String's own UTF-8 form is [l1_utf8] of the bytes read.  The key is the user's String iff
+    the two byte strings are equal. *)
+Definition key_back (n : bytes) : option bytes :=
+  match lex1 (47 :: esc_iso n ++ [32]) with
+  | (TName m, 32 :: nil) => Some (l1_utf8 m)
+  | _ => None
+  end.
+(** Content stream: "/name Do\n" read by ContentTokenizer::read_name + decode_name ([Tok.scan_name],
+    [Tok.decode_name], [Tok.utf8_valid], C21): the decoded bytes are taken as UTF-8. *)
+Definition operand_back (n : bytes) : option bytes :=
+  let (raw, rest) := Tok.scan_name (esc_iso n ++ [32; 68; 111; 10]) in
+  match rest, Tok.decode_name raw with
+  | 32 :: 68 :: 111 :: 10 :: nil, Some m => if Tok.utf8_valid m then Some m else None
+  | _, _ => None
+  end.
+Definition same (a : option bytes) (n : bytes) : bool :=
+  match a with Some m => bytes_eqb m n | None => false end.
+
+(** outcome codes of the harness: 0 = reads back with this name (as a String), 1 = rejected by the API, 2 = broken *)
 Definition predicted (e : entry) (n : bytes) : N :=
   match e with
+  | EForm => if valid_resource_name n then (if same (key_back n) n then 0 else 2) else 1
+  | EImage => if same (key_back n) n && same (operand_back n) n then 0 else 2   (* key in the dictionary AND operand of Do *)
+  end.
+(** the writer before fix_name_escape (names raw): kept for the record lemma *)
+Definition predicted_pinned (e : entry) (n : bytes) : N :=
+  match e with
   | EForm => if valid_resource_name n then 0 else 1
-  | EImage => if content_regular_name n then 0 else 2   (* key in the dictionary AND operand of Do *)
+  | EImage => if content_regular_name n then 0 else 2
   end.
 
 Definition api_case := (entry * bytes * N)%type.
